@@ -120,30 +120,7 @@ func runC31(c *core.Ctx) {
 		c.Decide(okC && len(names) == 2, "C31.who-may-record-peers", f, "UpdateConsensusPeer called only from SyncBlockHeader and SyncGenesisHeader", c.P.Rel(f.Pos()), sprintf("%v", names))
 	}
 	// FindKeyHeight
-	if fn := c.Fn(pkOntHS, "FindKeyHeight"); fn != nil {
-		eng.Dominates(c, "C31.key-height-below", fn, cmpGuard("height > v", func(b *ssa.BinOp) (bool, bool) {
-			isParam := func(v ssa.Value) bool { p, ok := ir.Strip(v).(*ssa.Parameter); return ok && p.Name() == "height" }
-			switch b.Op {
-			case token.GTR:
-				if isParam(b.X) {
-					return true, true
-				}
-			case token.LSS:
-				if isParam(b.Y) {
-					return true, true
-				}
-			case token.LEQ:
-				if isParam(b.X) {
-					return true, false
-				}
-			case token.GEQ:
-				if isParam(b.Y) {
-					return true, false
-				}
-			}
-			return false, false
-		}), ir.SuccessSinks(fn), "nil-error return", nil)
-	}
+	checkKeyHeightBelow(c, "C31.key-height-below")
 
 	// NEO family
 	for _, x := range []struct{ pkg, typ string }{
@@ -282,4 +259,34 @@ func runC31(c *core.Ctx) {
 		}, true)}
 		eng.Dominates(c, "C31.neo-header-witness", vfn, wit, succ, "nil return", nil)
 	}
+}
+
+// checkKeyHeightBelow: FindKeyHeight answers only a key height STRICTLY below the queried height — the block
+// at a key height is itself still signed by the previous validator set (shared by C24 and C31).
+func checkKeyHeightBelow(c *core.Ctx, rule string) {
+	if fn := c.Fn(pkOntHS, "FindKeyHeight"); fn != nil {
+		eng.Dominates(c, rule, fn, cmpGuard("height > v", func(b *ssa.BinOp) (bool, bool) {
+			isParam := func(v ssa.Value) bool { p, ok := ir.Strip(v).(*ssa.Parameter); return ok && p.Name() == "height" }
+			switch b.Op {
+			case token.GTR:
+				if isParam(b.X) {
+					return true, true
+				}
+			case token.LSS:
+				if isParam(b.Y) {
+					return true, true
+				}
+			case token.LEQ:
+				if isParam(b.X) {
+					return true, false
+				}
+			case token.GEQ:
+				if isParam(b.Y) {
+					return true, false
+				}
+			}
+			return false, false
+		}), ir.SuccessSinks(fn), "nil-error return", nil)
+	}
+
 }
